@@ -617,8 +617,10 @@ func c06ServerStreamLockstep(r *Run) {
 		ss, _ := server.NewServerStream(context.Background(), 7, "", "", "", rw, nil)
 		var ops, outs []string
 		k := rng.Intn(8)
+		allOK := true
 		for j := 0; j < k; j++ {
 			w := rng.Intn(5) != 0
+			allOK = allOK && w
 			suffix := map[bool]string{true: "+", false: "!"}[w]
 			rw.ok = w
 			before := len(rw.out)
@@ -653,6 +655,7 @@ func c06ServerStreamLockstep(r *Run) {
 			outs = append(outs, o)
 		}
 		w := rng.Intn(6) != 0
+		allOK = allOK && w
 		rw.ok = w
 		code := rng.Intn(17)
 		var herr error
@@ -671,6 +674,16 @@ func c06ServerStreamLockstep(r *Run) {
 		outs = append(outs, o)
 		r.Case("ssrun", strings.Join(ops, "/"), strings.Join(outs, " "))
 		r.CountN("ssrun.ops", len(ops))
+		// the property's own monitor on what this handler program put on the wire (when every write was
+		// accepted by the transport: a refused write leaves a hole that is the transport's doing)
+		if allOK && len(rw.out) > 0 {
+			sh := make([]string, len(rw.out))
+			for i, e := range rw.out {
+				sh[i] = shapeOf(e)
+			}
+			r.Case("accS", "stream|"+strings.Join(sh, ";"), "accept")
+			r.Count("ssrun.wire.projections")
+		}
 	}
 }
 
